@@ -53,6 +53,7 @@ def run(rep, tier, seed):
     fails, known, notes = [], [], []
     stats = dict(models=0, generated=0, inline_calls=0, module_calls=0, kink_rejected=0, size_one_vars=0)
     try:
+        ncorpus = len(lang.corpus())
         models = lang.corpus() + [lang.Gen(rng).model() for _ in range(nm)]
         for k, gm in enumerate(models):
             stats["models"] += 1
@@ -72,7 +73,7 @@ def run(rep, tier, seed):
                 fails.append((case0, f"HVP generation failed for an element-wise model: {type(ex).__name__}: {str(ex)[:160]}"))
                 continue
             stats["generated"] += 1
-            if k % (6 if tier == "quick" else 8) == 0 and gm.kind != "FDAE":
+            if (k < ncorpus or k % (6 if tier == "quick" else 8) == 0) and gm.kind != "FDAE":
                 try:
                     mdl = lang.build(gm); eqs, y0 = lang.quiet(mdl.create_instance)
                     name = f"c05m{k}_{os.getpid()}"
@@ -186,6 +187,21 @@ def run(rep, tier, seed):
         except Exception as ex:  # noqa
             notes.append(f"history run raised {type(ex).__name__}: {str(ex)[:100]}")
     stats["generation_histories"] = nhist
+    # the same with a rendered module as the last generation of the history (inline, inline for another layout, module for a third)
+    import tempfile as _tf
+    htmp = _tf.mkdtemp(prefix="c05h_")
+    try:
+        hgm = [m for m in models if len(m.vars) >= 2 and m.kind == "AE"][:3 if tier == "quick" else 20]
+        hf, nh2 = pipeline.regen_histories(hgm, rng, htmp, "c05h", what=("F", "J", "HVP"), with_module=True)
+    finally:
+        shutil.rmtree(htmp, ignore_errors=True)
+        if htmp in sys.path:
+            sys.path.remove(htmp)
+    stats["generation_histories_with_module"] = nh2
+    for case, msg in hf:
+        if "HVP" in msg and ("not iterable" in msg or "same length" in msg):
+            continue
+        fails.append((case, msg))
     # recorded finding: replay the witness every run
     kf = known_findings("C05")
     if kf:
